@@ -22,6 +22,13 @@ Good(s) == /\ Distinct2(s.ret) \/ s.ret = <<>>
            /\ (s.ret = <<>>) => (s.upd # <<>> /\ s.order = <<>> /\ s.skip = 0 /\ s.limit = 0 /\ ~s.distinct)
            /\ s.distinct => s.ret # <<>>
 ASSUME \A s \in {x \in Shapes : Good(x)} : PrintT(ToJson(s))
+\* create queries: which endpoints the WHERE clause reads, what the CREATE clause names (bound endpoints or new patterns),
+\* what is returned.  Built with both builders of the repository (query/neo4j's text builder and query.Builder, whose
+\* model the PostgreSQL driver translates).
+CreateShapes == [where : {"none", "start", "end", "both"},
+                 create : {"edge-between-bound", "edge-new", "edge-from-bound-start", "edge-to-bound-end", "node-new"},
+                 ret : {"none", "rel", "startid", "endid"}]
+ASSUME \A s \in CreateShapes : PrintT(ToJson(s))
 VARIABLE x
 Spec == x = 0 /\ [][x' = x]_x
 =============================================================================
